@@ -241,8 +241,20 @@ static int new_packet(int sk_fd, int timer_fd)
         return -1;
     }
 
+    if (n < (ssize_t)AVTP_FULL_HEADER_LEN) {
+        fprintf(stderr, "Dropping short packet\n");
+        return 0;
+    }
+
     if (!is_valid_packet(cvf)) {
         fprintf(stderr, "Dropping packet\n");
+        return 0;
+    }
+
+    /* The announced H.264 data must be inside the received packet */
+    if (Avtp_Cvf_GetStreamDataLength(cvf) < AVTP_H264_HEADER_LEN ||
+        Avtp_Cvf_GetStreamDataLength(cvf) - AVTP_H264_HEADER_LEN > (size_t)n - AVTP_FULL_HEADER_LEN) {
+        fprintf(stderr, "Dropping packet with invalid stream data length\n");
         return 0;
     }
 
